@@ -15,7 +15,7 @@ from vt import gen
 
 PROPERTY = "C06"
 TITLE = "Lazy objects never stale"
-TECHNIQUE = ('runtime monitoring: mutation histories on lazily evaluated objects checked after every step against a shadow model, its eager evaluation and a freshly constructed object; operands and argument arrays of earlier operations stay watched; icontract class invariant 'no cached quantity differs from its recomputation' (also evaluated while the repository's own tests run)')
+TECHNIQUE = ('runtime monitoring: mutation histories on lazily evaluated objects checked after every step against a shadow model, its eager evaluation and a freshly constructed object; operands and argument arrays of earlier operations stay watched; icontract class invariant (no cached quantity differs from its recomputation), also evaluated while the repository tests run')
 ANCHORS = ["pyrex.internal_functions:LazyMutableClass.__setattr__", "pyrex.internal_functions:LazyMutableClass._clear_cache",
            "pyrex.signals:FunctionSignal.values", "pyrex.signals:FunctionSignal.filter_frequencies",
            "pyrex.signals:FunctionSignal.set_buffers", "pyrex.signals:FunctionSignal.shift",
